@@ -1194,13 +1194,28 @@ impl NodeId {
         let mut cursor = Some(self);
         while let Some(id) = cursor {
             arena.free_node(id);
-            let node = &arena[id];
-            cursor = node.first_child.or(node.next_sibling).or_else(|| {
-                id.ancestors(arena) // traverse ancestors upwards
-                    .skip(1) // skip the starting node itself
-                    .find(|n| arena[*n].next_sibling.is_some()) // first ancestor with a sibling
-                    .and_then(|n| arena[n].next_sibling) // the sibling is the new cursor
-            });
+            if let Some(first_child) = arena[id].first_child {
+                cursor = Some(first_child);
+                continue;
+            }
+            // `id` is a leaf: go to the next sibling of the nearest node that
+            // has one, clearing the links of every node the walk is done with
+            // so that removed nodes do not keep referring to each other.
+            let mut done = id;
+            cursor = loop {
+                let node = &mut arena[done];
+                let (parent, next_sibling) = (node.parent, node.next_sibling);
+                node.parent = None;
+                node.previous_sibling = None;
+                node.next_sibling = None;
+                node.first_child = None;
+                node.last_child = None;
+                match (next_sibling, parent) {
+                    (Some(next_sibling), _) => break Some(next_sibling),
+                    (None, Some(parent)) => done = parent,
+                    (None, None) => break None,
+                }
+            };
         }
     }
 
